@@ -58,6 +58,18 @@ func (s *c20Sub) has(certData []byte) bool {
 	return false
 }
 
+// sawMarker: has this subscriber received the web-login marker event for name?
+func (s *c20Sub) sawMarker(name string) bool {
+	s.mu.Lock()
+	defer s.mu.Unlock()
+	for i := len(s.events) - 1; i >= 0; i-- {
+		if s.events[i].Type == eventmon.EventTypeWebLogin && s.events[i].Username == name {
+			return true
+		}
+	}
+	return false
+}
+
 func (s *c20Sub) count(typ string) int {
 	s.mu.Lock()
 	defer s.mu.Unlock()
@@ -215,14 +227,52 @@ func c20Check(c c20Case) *vResult {
 			vServe(w.state.loginHandler, vFormRequest("POST", "/api/v0/login", url.Values{"username": {vUserAlice}, "password": {vPwAlice}}))
 		})
 	}
+	// a PROMPT subscriber is one that has read everything sent so far: the
+	// notifier drops events for a subscriber whose 16-event backlog is full, so
+	// promptness is established by synchronisation (a marker event that every
+	// prompt subscriber must have read), not left to the scheduler of a busy machine
+	markers := 0
+	syncPrompt := func() bool {
+		if len(prompt) == 0 {
+			return true
+		}
+		markers++
+		name := fmt.Sprintf("verif-sync-%d", markers)
+		deadline := time.Now().Add(30 * time.Second)
+		for time.Now().Before(deadline) {
+			eventNotifier.PublishWebLoginEvent(name)
+			until := time.Now().Add(100 * time.Millisecond)
+			for time.Now().Before(until) {
+				all := true
+				for _, s := range prompt {
+					if !s.sawMarker(name) {
+						all = false
+					}
+				}
+				if all {
+					return true
+				}
+				time.Sleep(time.Millisecond)
+			}
+		}
+		return false
+	}
 	for i := 0; i < c.Flood; i++ {
 		if d := login(); d > 20*time.Second {
 			res.violate("blocked-by-slow-subscriber:login", "a login took %v with %d stalled subscribers (flood event %d)", d, c.Stalled, i)
 			return res
 		}
+		if !syncPrompt() {
+			res.label("prompt-subscriber-not-draining")
+			return res
+		}
 	}
 	issued := 0
 	for i, op := range c.Ops {
+		if !syncPrompt() {
+			res.label("prompt-subscriber-not-draining")
+			return res
+		}
 		key := vKey("p256", "c20user")
 		var req *http.Request
 		var handler http.HandlerFunc
